@@ -36,6 +36,8 @@ INDEXTYPES = {'int8', 'uint8', 'int16', 'uint16', 'int32', 'uint32', 'int64'}
 
 
 def run(ctx):
+    from ._shared import no_escape_from_finally
+    no_escape_from_finally(ctx, 'D3')   # a failing append raises: no clean-up swallows the exception in flight
     RA = ctx.repo.cls('RaggedArray')
     committer = find_committer(ctx)
     appenders = find_appenders(ctx)
